@@ -529,9 +529,19 @@ def deliver_rest(ctx):
         f = facts.fn(CORE + "::count_lines")
         eb = ExprBuilder(f)
         cnt = f.calls_to("grep_searcher::lines::count")
-        ge = cond_switches(f, lambda e: e.k == "bin" and e[1] == "Ge" and mentions_field(e[2], CORE, "last_line_counted"), eb)
+        # the comparison of the mark with `upto`, however it is spelled (`mark >= upto` ⇒ return, `mark < upto` ⇒ count):
+        # when the mark has reached upto nothing is counted
+        from ..flow import cmp_stmts, cmp_truth, excluded_by_test
+        tests_ = []
+        for bb_, j_, op_, lhs_, rhs_ in cmp_stmts(f, eb):
+            for x_, y_, lx_ in ((lhs_, rhs_, True), (rhs_, lhs_, False)):
+                if mentions_field(x_, CORE, "last_line_counted") and any(z.k == "arg" and z[2] == "upto" for z in walk(y_)):
+                    v_ = cmp_truth(op_, lx_, "Ge")
+                    if v_ is not None:
+                        tests_.append((bb_, j_, v_))
+        ge = excluded_by_test(f, tests_, [c_.bb for c_ in cnt]) if cnt else []
         wm = [eb.rvalue(st["rv"]) for bb, j, st in f.stmts() if st["k"] == "assign" and (CORE, "last_line_counted") in fields_of_place(st["place"])]
-        if cnt and ge and not guarded(f, [cnt[0].bb], ge, False):
+        if cnt and ge:
             hay = eb.operand(cnt[0].args[0])
             rng = [x for x in walk(hay) if x.k == "agg" and x[1].endswith("ops::range::Range")]
             okr = rng and mentions_field(rng[0][3][0], CORE, "last_line_counted") and any(y.k == "arg" and y[2] == "upto" for y in walk(rng[0][3][1]))
